@@ -23,6 +23,16 @@ Four exhaustive sub-enumerations (DESIGN section 4 / C17):
      with the option, through the real mypy.main.main under every accepted source, plus conflicting
      source pairs: equal snapshots mean equal diagnostics.
 
+Added after seeded changes were missed:
+ (a2) toml groupings: every relation (module, option) over 2x3 and 3x2 grids (thorough 3x3) x every way
+     to write it as [[tool.mypy.overrides]] tables (list-valued module keys, a module named in several
+     tables with disjoint keys) x table orders, each equivalent to one mypy.ini section per module.
+ (c3) pattern sets where each section sets ONE of disable_error_code / enable_error_code (distinct code
+     per section) / ignore_missing_imports / an unrelated option: a setting survives later applying
+     sections that are silent about it (mypy stores implicit empty error-code lists in every section).
+ (d)  layout witnesses: the same two non-conflicting settings as unstructured / structured / concrete
+     sections, both orders, ini and toml, give the diagnostics of one concrete section.
+
 Tiers.  quick: (a) files mypy.ini / setup.cfg / pyproject.toml / --config-file cfg.ini|cfg.toml;
 (c) <= 3 sections, modules to depth 3, lane c1 in ini+toml, lane c2 in ini; (d) in-process with the
 fixture stubs.  thorough adds: (a) .mypy.ini and per-module sections through --config-file; (c) <= 4
@@ -710,11 +720,10 @@ def judge_incremental(cfg: dict, row: list, mods: list[str], defaults: dict, obs
                 if bad is None and leak:
                     bad = f"code {leak[0]!r} of a section that does not apply to {m} is in force"
             if bad:
-                lv = sorted({model.LEVEL_NAMES[model.section_level(secs[i])] for i in live})
                 opt = names[tr]
                 wl = model.LEVEL_NAMES[settings_level(setters, w)] if w is not None else "none"
                 viols.append(Violation(
-                    f"pattern-inherit|opt={opt}|applying={'+'.join(lv)}|setter={wl}",
+                    f"pattern-inherit|opt={opt}|setter={wl}",
                     f"sections {secs} set {asg} ({cfg['fmt']}; D={names['D']}, E={names['E']}, I={names['I']}, N=other option), "
                     f"module {m}: {bad}",
                     {"lane": "c", "cfg": cfg, "module": m, "track": tr}))
@@ -1345,7 +1354,11 @@ def run(ctx: Ctx) -> Result:
     if vac:
         raise RuntimeError("vacuous exploration: " + "; ".join(vac))
     evaluations = na + ia2["cases"] + nb + ic["stats"].get("evaluations", 0) + sum(i["stats"].get("witness_runs", 0) + i["stats"].get("witness_pairs", 0) for i in id_.values())
-    nontriv = len(ia["nontrivial"]) + ib["stats"].get("pairs_judged", 0) + ic["stats"].get("module_matched_by_2_or_more_sections", 0)
+    nontriv = (len(ia["nontrivial"]) + ib["stats"].get("pairs_judged", 0)
+               + ic["stats"].get("module_matched_by_2_or_more_sections", 0)
+               + ic["stats"].get("c3_winner_followed_by_an_applying_section_silent_about_the_option", 0)
+               + ia2["stats"].get("with_list_valued_module_key", 0) + ia2["stats"].get("with_a_module_named_in_several_tables", 0)
+               - ia2["stats"].get("with_both", 0))
     single_source = sorted(n for n in table if len(ia["sources_of"].get(n, ())) < 2)
     samples = [
         {"lane": "a", "option": "strict_optional", "sources_accepted": sorted(ia["sources_of"].get("strict_optional", ()))},
@@ -1356,7 +1369,9 @@ def run(ctx: Ctx) -> Result:
         "rule": "(a) an (option, value) group is non-trivial iff the setting changes Options.snapshot() or the targets "
                 "relative to the empty configuration and >= 2 sources accepted it; (b) every judged pair has two sources "
                 "setting DIFFERENT values with distinguishable effects; (c) a (section set, module) case is non-trivial "
-                "iff >= 2 of its sections match the module by the documented rule",
+                "iff >= 2 of its sections apply to the module; a c3 case is non-trivial iff the documented winner for the "
+                "option is followed by an applying section that is silent about it; (a2) a toml grouping is non-trivial iff "
+                "it uses a list-valued module key or names a module in several tables",
         "exhaustive": True,
         "options_in_table": len(table),
         "options_with_2_or_more_sources": len(table) - len(single_source),
